@@ -78,6 +78,10 @@ def run(run: Run) -> int:
             s = ion_rich(run.rng)
         else:
             s = gens.gen_struct(run.rng, maxdepth=3)
+        if run.rng.random() < 0.12:
+            # an atom (or a whole group) with total count zero stays in the composition, with count 0
+            s = list(s) + [(run.rng.choice([0, 0.0]), gens.gen_struct(run.rng, maxdepth=1) if run.rng.random() < 0.4
+                            else gens.gen_atom(run.rng))]
         cases.append(s)
         if any(not pyside.is_key(fr) for _, fr in s) and run.rng.random() < 0.3:
             # a near twin right after it: the counts inside the groups differ in the seventh digit only
@@ -119,6 +123,11 @@ def run(run: Run) -> int:
         if [k for _, k in hs] != order_h:
             run.violation("Hill form not in C, H, then alphabetical / isotope / charge order", inp,
                           got=[k for _, k in hs], expected=order_h)
+        # the Hill form copies the counts: they are the formula's own counts, bit for bit
+        if {pyside.key_of(a): c for a, c in h.atoms.items()} != {pyside.key_of(a): c for a, c in f.atoms.items()}:
+            run.violation("Hill form does not have exactly the formula's atom counts", inp,
+                          hill=str({pyside.key_of(a): c for a, c in h.atoms.items()}),
+                          formula=str({pyside.key_of(a): c for a, c in f.atoms.items()}))
         if not (h.hill == h):
             run.violation("taking the Hill form twice changes it", inp)
         # Hill form after further operations on formulas whose Hill form was already read
